@@ -57,6 +57,9 @@ func (f *fixedReader) Read(p []byte) (int, error) {
 	}
 	st := f.steps[f.pos]
 	f.pos++
+	if g, _ := st["gc"].(bool); g && f.pos > 1 {
+		settle()
+	}
 	b := toBytes(intsOf(st["bytes"]))
 	if len(b) > len(p) {
 		b = b[:len(p)]
@@ -323,7 +326,7 @@ func runProgram(p program, seed int64) {
 					progSrc.after = "data"
 				}
 				progSrc.delay = time.Duration(st.DelayMs) * time.Millisecond
-				progSrc.gc = st.GC
+				progSrc.gc, progSrc.gave = st.GC, 0
 				if st.Fill >= 100 {
 					// a repeated stream: every call with this fill number is handed exactly the same bytes (a test
 					// fixture, a deterministic generator restarted from its seed, a recorded stream played again)
